@@ -105,17 +105,19 @@ def one(world, d, k, n_accept, form, order="plain"):
         prog.activate()
         xm = importlib.import_module(prog.xpkg + ".util")
         pl = world.pipelog
-        pl.cur = []
-        try:
-            v = xm.xd()
-            bad("non_accepted_datafn_evaluated", f"data function of the non-accepted module {prog.xpkg}.util was evaluated untracked and returned {v!r}")
-        except BaseException as e:  # noqa
-            if not core.is_dds_exc(e):
-                bad(f"non_accepted_datafn_error|{type(e).__name__}", f"raised {type(e).__name__}: {str(e)[:100]} instead of a DDS error")
-            elif prog.xpkg not in str(e):
-                bad("non_accepted_datafn_unnamed", f"the error does not name the module: {str(e)[:160]}")
-            if pl.cur:
-                bad("non_accepted_datafn_ran", f"user code ran: {pl.cur}")
+        for attempt in ("", "|retry"):   # the refusal does not wear off when the call is repeated (a notebook cell run again)
+            pl.cur = []
+            try:
+                v = xm.xd()
+                bad("non_accepted_datafn_evaluated" + attempt, f"data function of the non-accepted module {prog.xpkg}.util was evaluated untracked and returned {v!r}"
+                    + (" when called a second time after the refusal" if attempt else ""))
+            except BaseException as e:  # noqa
+                if not core.is_dds_exc(e):
+                    bad(f"non_accepted_datafn_error{attempt}|{type(e).__name__}", f"raised {type(e).__name__}: {str(e)[:100]} instead of a DDS error")
+                elif prog.xpkg not in str(e):
+                    bad("non_accepted_datafn_unnamed" + attempt, f"the error does not name the module: {str(e)[:160]}")
+                if pl.cur:
+                    bad("non_accepted_datafn_ran" + attempt, f"user code ran: {pl.cur}")
         # a lambda kept (at top level) by a function of the non-accepted module: a data function without a name
         import os
         import sys
